@@ -116,6 +116,7 @@ def render_program(apps: List[App], variables: List[Var], w: int, init: str) -> 
     for k, app in enumerate(apps):
         lines.append('    stl.output_bit 0')
         args: List[str] = []
+        named: set = set()
         for op in app.spec.operands:
             if op.kind == 'n':
                 args.append(str(app.n))
@@ -123,7 +124,11 @@ def render_program(apps: List[App], variables: List[Var], w: int, init: str) -> 
                 v = app.consts[op.name]
                 args.append(str(v) if v >= 0 else f'(0-{-v})')
             elif op.kind in ('bit', 'hex'):
-                args.append(app.binding[op.name])
+                name = app.binding[op.name]
+                # one variable given twice (where the documentation allows it): every other time under its SECOND label - two
+                # names of one address are the same variable just as much as one name twice
+                args.append(f'{name}_too' if name in named and k % 2 == 0 else name)
+                named.add(name)
             elif op.kind in ('bitaddr', 'fieldaddr'):
                 args.append(f'{app.binding[op.name]} + dbit')
             elif op.kind == 'hexbits':
@@ -149,6 +154,7 @@ def render_program(apps: List[App], variables: List[Var], w: int, init: str) -> 
     for var in variables:
         if var.hidden:
             continue
+        lines.append(f'{var.name}_too:')
         lines.append(f'{var.name}: ;0' if var.kind == 'field' else f'{var.name}: {var.kind}.vec {var.length}')
     # user constants spelled like the parameters of the library's macros, defined last: inside a macro its parameter is the parameter
     lines.extend(['n = 4', 'x = 9', 'times = 3', 'dst = 5', 'src = 6', 'a = 7', 'b = 2', 'i = 11', 'val = 13', 'bit = 1', 'hex = 2'])
